@@ -116,6 +116,40 @@ def rule_borrow(F, R, rule="R14-borrow", scope=None):
     return n
 
 
+def _is_declared_type(E, S, node, frame):
+    """the expression is the container's declared element type: `<container>.value_type()`, or a field of the visitor struct
+    that every construction of the visitor initialises with `<container>.value_type()`"""
+    v = S.resolve(node, frame)
+    if sem.is_method(v.node, "value_type") is not None:
+        return True
+    def tkey(t):
+        t = norm(t or "").strip()
+        while t.startswith("&"):
+            t = t[1:].lstrip()
+            if t.startswith("mut "):
+                t = t[4:]
+        return re.sub(r"<[^<>]*>$", "", t).strip()
+    fld = None
+    n = strip(v.node)
+    if n.get("k") == "Field":
+        fld = (tkey(n["e"].get("ty", "")), n["name"])
+    elif v.bind is not None and v.bind.proj and v.bind.proj[-1][0] == "f" and v.bind.expr is not None:
+        fld = (tkey(sem.peel(v.bind.expr).get("ty", "")), v.bind.proj[-1][2])
+    if not fld:
+        return False
+    sty = fld[0]
+    inits = []
+    for hb in E.hir_list:
+        if "body" not in hb:
+            continue
+        for s_ in exprs(hb["body"], "Struct"):
+            if tkey(s_.get("ty", "")) == sty and sty:
+                for f_ in s_["fields"]:
+                    if f_["name"] == fld[1]:
+                        inits.append(f_["e"])
+    return bool(inits) and all(sem.is_method(sem.peel(i_), "value_type") is not None for i_ in inits)
+
+
 def _store_guarded(E, h, push_method, R, rule, fn, what):
     """every `<container of LhsValue>.<push_method>(.., elem)` in the visitor body sits on a path where the element's own
     type (elem.get_type()) is known to equal the container's declared element type (self.0.value_type())"""
@@ -136,9 +170,9 @@ def _store_guarded(E, h, push_method, R, rule, fn, what):
             if not certain or op != "Eq":
                 continue
             for a_, b_ in ((l, r), (r, l)):
-                declared = sem.is_method(S.resolve(a_, fr).node, "value_type")
+                declared = _is_declared_type(E, S, a_, fr)
                 gt = sem.is_method(S.resolve(b_, fr).node, "get_type")
-                if declared is not None and gt is not None and eb is not None and sem.root_local(S, gt, S.resolve(b_, fr).frame) is eb:
+                if declared and gt is not None and eb is not None and sem.root_local(S, gt, S.resolve(b_, fr).frame) is eb:
                     guarded = True
         R.check(guarded, rule, fn, "%s stored only after `type != value_type -> Err`" % what, where=c["sp"])
     return n
@@ -179,7 +213,7 @@ def rule_store(F, R, rule="R14-store"):
         for h in E.hirs(rx):
             seeds = [c for c in exprs(h["body"], "Call") if norm(c.get("callee", "")) == "types::LhsValueSeed"]
             Sx = sem.Sem(E, h, inline=False)
-            good = seeds and all(sem.is_method(Sx.resolve(c["args"][0], Sx.root).node, "value_type") is not None for c in seeds)
+            good = seeds and all(_is_declared_type(E, Sx, c["args"][0], Sx.root) for c in seeds)
             R.check(bool(good), rule, norm(h["path"]), "elements deserialized with the declared element type", where=h["span"])
 
 
